@@ -739,8 +739,9 @@ def _r2(ctx):
         for c in calls_in(fi.node):
             if (call_name(c) or "").endswith("Binned") and len(c.args) >= 2:
                 binned.append((fi, c))
-    if len(binned) < 2:
-        raise AnalysisError("expected two Binned constructor calls, found %d" % len(binned))
+    if len(binned) < 1:
+        raise AnalysisError("no Binned constructor call found")
+    single_site = len(binned) == 1           # the common set-up of the P_RAM / P_RAJ runs may live in one private helper
 
     def trace(fi, expr, depth=0):
         """-> list of (ok, message) over all call chains"""
@@ -784,8 +785,11 @@ def _r2(ctx):
         bad = [msg for ok, msg in res if not ok]
         if bad:
             ctx.violated(fi, c, "Binned table maximum does not come unreduced from maximum_absolute_load: %s" % "; ".join(bad))
+        elif single_site and len(res) < 2:
+            raise AnalysisError("one Binned constructor call reached along %d call chain(s); expected the P_RAM and the P_RAJ run" % len(res))
         else:
-            ctx.holds(fi, c, "table maximum = %s along %d call chain(s)" % (res[0][1], len(res)))
+            for _ in range(2 if single_site else 1):
+                ctx.holds(fi, c, "table maximum = %s along %d call chain(s)" % (res[0][1], len(res)))
 
 
 def _r3(ctx):
